@@ -195,6 +195,40 @@ structure Out (α : Type) where
 /-- `qq[j]*dro[j]` summed from 0.0, j = 0..4 -/
 def convolve (qq dro : List α) : α := (List.zipWith (fun q d => q * d) qq dro).foldl (fun acc x => acc + x) 0.0
 
+/-- results of the channel stage of one time step -/
+structure Channel (α : Type) where
+  qq : List α
+  lzfpc : α
+  lzfsc : α
+  qf : α
+  bf : α
+  e4 : α
+  baseflowFraction : α
+  tags : List String
+
+/-- everything after the drainage loops: scaling to the pervious area, unit hydrograph, channel losses,
+baseflow split (the code from `flosf = flosf * (1. - pctim - adimp)` to the output assignments) -/
+def channel (p : Params α) (c : Consts α) (qq : List α) (evapt : α) (v2 : Inner α) : Channel α :=
+  let flosf := v2.flosf * (1.0 - p.pctim - p.adimp)
+  let floin := v2.floin * (1.0 - p.pctim - p.adimp)
+  let flobf := v2.flobf * (1.0 - p.pctim - p.adimp)
+  let lzfsc := v2.alzfsc / (1.0 + p.side)
+  let lzfpc := v2.alzfpc / (1.0 + p.side)
+  let q0 := flosf + v2.roimp + floin
+  let qqNow := q0 :: qq.tail
+  let flwsf := convolve qqNow c.dro
+  let qq' := q0 :: qqNow.dropLast
+  let flwbf0 := flobf / (1.0 + p.side)
+  let flwbf := if flwbf0 < 0.0 then 0.0 else flwbf0
+  let qf0 := flwbf + flwsf
+  let baseflowFraction := if (0.0 : α) < qf0 then flwbf / qf0 else 0.0
+  let qf1 := Num.gmax 0.0 (qf0 - p.ssout)
+  let e4 := Num.gmin (evapt * p.sarva) qf1
+  let qf := qf1 - e4
+  let bf := baseflowFraction * qf
+  ⟨qq', lzfpc, lzfsc, qf, bf, e4, baseflowFraction,
+    (if (0.0 : α) < qf0 then [] else ["qf0=0"]) ++ (if flwbf0 < 0.0 then ["flwbf<0"] else [])⟩
+
 /-- one iteration of the time loop -/
 def step (p : Params α) (c : Consts α) (st : State α) (i : α × α) : State α × Out α :=
   let pliq := i.1
@@ -244,31 +278,14 @@ def step (p : Params α) (c : Consts α) (st : State α) (i : α × α) : State 
   let v0 : Inner α := ⟨alzfpc1, alzfsc1, uzfwc2, lztwc2, adimc2, 0.0, 0.0, 0.0, roimp0, []⟩
   let v2 := if pav ≤ 5.08 then iiBody p c uztwc3 hpl adj pav v0
             else iiBody p c uztwc3 hpl (1.0 - adj) 0.0 (iiBody p c uztwc3 hpl adj pav v0)
-  -- runoff components
-  let flosf := v2.flosf * (1.0 - p.pctim - p.adimp)
-  let floin := v2.floin * (1.0 - p.pctim - p.adimp)
-  let flobf := v2.flobf * (1.0 - p.pctim - p.adimp)
-  let lzfsc := v2.alzfsc / (1.0 + p.side)
-  let lzfpc := v2.alzfpc / (1.0 + p.side)
-  let q0 := flosf + v2.roimp + floin
-  let qqNow := q0 :: st.qq.tail
-  let flwsf := convolve qqNow c.dro
-  let qq' := q0 :: qqNow.dropLast
-  let flwbf0 := flobf / (1.0 + p.side)
-  let flwbf := if flwbf0 < 0.0 then 0.0 else flwbf0
-  let qf0 := flwbf + flwsf
-  let baseflowFraction := if (0.0 : α) < qf0 then flwbf / qf0 else 0.0
-  let qf1 := Num.gmax 0.0 (qf0 - p.ssout)
-  let e4 := Num.gmin (evapt * p.sarva) qf1
-  let qf := qf1 - e4
-  let bf := baseflowFraction * qf
-  (⟨uztwc3, v2.uzfwc, v2.lztwc, lzfpc, lzfsc, v2.adimc, v2.alzfsc, v2.alzfpc, qq'⟩,
-   ⟨e1 + e2 + e3 + e4 + e5, qf, v2.roimp, qf - bf, bf, e1, e2, e3, e4, e5, baseflowFraction,
+  let ch := channel p c st.qq evapt v2
+  (⟨uztwc3, v2.uzfwc, v2.lztwc, ch.lzfpc, ch.lzfsc, v2.adimc, v2.alzfsc, v2.alzfpc, ch.qq⟩,
+   ⟨e1 + e2 + e3 + ch.e4 + e5, ch.qf, v2.roimp, ch.qf - ch.bf, ch.bf, e1, e2, e3, ch.e4, e5, ch.baseflowFraction,
     v2.tags ++ (if st.uztwc < e1a then ["uztw_dry"] else ["uztw_ok"]) ++ (if a1 < b1 then ["uz_transfer"] else []) ++
     (if a3 < b3 then (if alzfsc0 < 0 then ["lz_resupply", "lz_resupply_primary"] else ["lz_resupply"]) else []) ++
     (if pav0 < 0 then ["pav<0"] else ["pav>=0"]) ++
     (if pav ≤ 5.08 then ["itime=2"] else if pav < 25.4 then ["itime=1", "adj_sqrt"] else ["itime=1", "adj_big"]) ++
-    (if (0.0 : α) < qf0 then [] else ["qf0=0"]) ++ (if flwbf0 < 0.0 then ["flwbf<0"] else [])⟩)
+    ch.tags⟩)
 
 def run (p : Params α) (st : State α) (xs : List (α × α)) : State α × List (Out α) := scan (step p (consts p)) st xs
 
